@@ -105,6 +105,7 @@ func Sets() [][]Def {
 		{L("SEMI", ";"), L("LB", "{"), L("RB", "}"), L("LLB", "{{"), P("WORD", `\w+`), P("SP", `[ \x09]+`)},
 		{D("ID", "$ID"), D("NUMBER", "$NUMBER"), L("PLUS", "+"), L("STAR", "*"), L("LP", "("), L("RP", ")"), D("WS", "$WS")},
 		{P("UP", "[A-Z][a-z]*"), P("DIGITS", `\d{2,3}`), L("AT", "@"), L("HASH", "#")},
+		{P("HEX", "[0-9a-f]+"), P("B32", "[A-Z2-7]+x"), P("S64", `[0-9A-Za-z_$]y`), P("S8", "[a-h]z"), P("S15", "[a-o]!"), P("S17", "[a-q]#"), P("S31", `[A-Z1-5]%`), P("S33", `[A-Z1-7]&`), P("S48", `[0-9A-Za-l]~`)},
 		{L("BQ", "`"), L("ABQ", "a`b"), L("TRI", "```"), L("DOLLAR", "$"), L("PCT", "%d"), L("NL", `\n`), L("BRACES", "{{}}")},
 		{L("P1", "!"), L("P2", "#"), L("P3", "&"), L("P4", "'"), L("P5", "*"), L("P6", ","), L("P7", "."), L("P8", "/"), L("P9", ":"), L("PA", "<"), L("PB", ">"), L("PC", "?"), L("PD", "["), L("PE", "]"), L("PF", "^"), L("PG", "_"), L("PH", "|"), L("PI", "~"), L("PJ", `\\n`), L("PK", `\"\"`)},
 	}
